@@ -103,22 +103,20 @@ Qed.
 
 Lemma event_level_changed L old new ty :
   (forall x, In x (named_pairs old new ++ event_pairs old new) -> level_pair_ok L (fst x) (snd x) = true) ->
-  pl_event_level new ty false <> pl_event_level old ty false ->
-  pl_event_level new ty false <= L /\ pl_event_level old ty false <= L.
+  pl_event_entry new ty <> pl_event_entry old ty ->
+  pl_event_entry new ty <= L /\ pl_event_entry old ty <= L.
 Proof.
   intros He Hne.
-  assert (Hin : In (pl_event_level old ty false, pl_event_level new ty false)
+  assert (Hin : In (pl_event_entry old ty, pl_event_entry new ty)
                    (named_pairs old new ++ event_pairs old new)).
-  { destruct (bytes_eqb ty tpi_type) eqn:Et.
-    - unfold pl_event_level. rewrite Et. apply in_or_app. left. unfold named_pairs. simpl. tauto.
-    - destruct (lookup_z_none_or_in ty (pl_events new)) as [En|I1].
-      + destruct (lookup_z_none_or_in ty (pl_events old)) as [Eo|I2].
-        * unfold pl_event_level. rewrite Et, En, Eo. apply in_or_app. left.
-          unfold named_pairs. simpl. tauto.
-        * apply in_or_app. right. unfold event_pairs. apply in_map_iff. exists ty.
-          split; [reflexivity|apply in_or_app; right; assumption].
+  { destruct (lookup_z_none_or_in ty (pl_events new)) as [En|I1].
+    - destruct (lookup_z_none_or_in ty (pl_events old)) as [Eo|I2].
+      + unfold pl_event_entry. rewrite En, Eo. apply in_or_app. left.
+        unfold named_pairs. simpl. tauto.
       + apply in_or_app. right. unfold event_pairs. apply in_map_iff. exists ty.
-        split; [reflexivity|apply in_or_app; left; assumption]. }
+        split; [reflexivity|apply in_or_app; right; assumption].
+    - apply in_or_app. right. unfold event_pairs. apply in_map_iff. exists ty.
+      split; [reflexivity|apply in_or_app; left; assumption]. }
   pose proof (level_pair_ok_spec L _ _ (He _ Hin)) as H. cbn [fst snd] in H. apply H. exact Hne.
 Qed.
 
